@@ -3,7 +3,7 @@
    (lexer -> token stream -> parser -> transforms), proofs in proofs/GenExamples.v. *)
 From Coq Require Import List NArith Bool Arith.
 Import ListNotations.
-From PV Require Import Regex Base LexTables NodeModel ParserBase ParserDecl ParserMain Api GenExamples ParserTables GenTables CSpec TableProofs Generator ParamProofs GenParam ClimbProofs GenParen GenBinop.
+From PV Require Import Regex Base LexTables NodeModel ParserBase ParserDecl ParserMain Api GenExamples ParserTables GenTables CSpec TableProofs Generator ParamProofs GenParam ClimbProofs GenParen GenBinop ParserBase ParserMain StreamLib RoundTrip.
 
 (* parse . generate . parse = parse and second generation = first (default configuration) *)
 Theorem C07_roundtrip_decls :
@@ -102,3 +102,30 @@ Example C07_binop_example :
              (GBin str str (s2l "*") (GBin str str (s2l "-") (GLeaf str str (s2l "b")) (GLeaf str str (s2l "c"))) (GLeaf str str (s2l "d"))) in
   generate nat true 10 (emb nat t) = GOk (s2l "a - (b - c) * d", Z0) /\ print true t = s2l "a - (b - c) * d".
 Proof. vm_compute. split; reflexivity. Qed.
+
+(* parse . generate = id at token level, for EVERY tree of binary operators over identifiers (any size, any shape,
+   both settings of reduce_parentheses).  [kv rp t] is the token sequence (kind, spelling) of the text the
+   generator prints for t (C07_generated_text_is_its_tokens below).  Whenever the WHOLE-PARSER model
+   (ParserMain.p_expression: expression -> assignment (with its two-token look-ahead for `({`) -> conditional ->
+   precedence climbing -> cast (speculative `( type-name )` attempt, mark / reset) -> unary -> postfix (second
+   speculative attempt, compound-literal test, suffix loop) -> primary -> `( expression )` recursively) finds
+   tokens with these kinds and spellings next in its input - delivered lazily through the buffered token stream,
+   identifiers classified against the scope stack (StreamLib.Up) - followed by a token that cannot continue an
+   expression, it returns, for all sufficiently large fuel, exactly the tree the text was generated from
+   (coordinates erased) and has consumed exactly those tokens. *)
+Theorem C07_parse_of_generated_tokens : forall (P: Type) rp (t: gt str str), ops_known t ->
+  forall (s: ParserBase.pstate P) le stop l0, Spell P le (kv rp t) -> Up P s (le ++ stop :: l0) -> estop (tk stop) = true ->
+  exists f0 N s', (forall f, (f0 <= f)%nat -> p_expression P f s = Ok (N, s')) /\ Up P s' (stop :: l0) /\ strip N = emb unit t.
+Proof. exact parse_of_generated_tokens. Qed.
+Print Assumptions C07_parse_of_generated_tokens.
+
+(* the generated text is the concatenation of those spellings, with a blank on each side of each operator *)
+Theorem C07_generated_text_is_its_tokens : forall rp (t: gt str str), ops_known t -> print rp t = text_of (kv rp t).
+Proof. exact print_is_text. Qed.
+Print Assumptions C07_generated_text_is_its_tokens.
+
+(* the hypotheses are satisfiable: `( a + b ) * c ;` as the first items of a translation unit *)
+Example C07_roundtrip_hypotheses_satisfiable :
+  ops_known ex_tree /\ Spell nat ex_toks (kv false ex_tree) /\ Up nat ex_state (ex_toks ++ [mkTok nat K_SEMI (s2l ";") 8%nat]) /\
+  estop K_SEMI = true /\ print false ex_tree = s2l "(a + b) * c".
+Proof. exact roundtrip_hypotheses_satisfiable. Qed.
